@@ -5,7 +5,7 @@ import re
 
 from ..rules import must_precede, must_follow
 from ..cfg import cfg_of, always_raises
-from ..astutil import dotted, get_arg, derived, norm, enclosing, names_in, defs_of, assignments
+from ..astutil import dict_entries, dotted, get_arg, derived, norm, enclosing, names_in, defs_of, assignments
 from ..srcmodel import own_nodes, AnalysisError, const_eval
 from .C17 import find_committer, find_appenders, d2_data_owners
 from .C20 import fold, _NoFold
@@ -124,11 +124,8 @@ def d1_keys(ctx):
         if isinstance(n, ast.Assign) and isinstance(n.value, ast.Call) and \
                 any(t is nt for k, t in ctx.R.resolve_call(n.value, f) if k == 'repo'):
             dvar = norm(n.targets[0])
-    stores = {}
-    for n in own_nodes(f.node):
-        if isinstance(n, ast.Assign) and isinstance(n.targets[0], ast.Subscript) and dvar and \
-                norm(n.targets[0].value) == dvar and isinstance(n.targets[0].slice, ast.Constant):
-            stores[n.targets[0].slice.value] = n.value
+    # subscript stores, .update(k=v) / .update({...}) calls and literal entries alike
+    stores = dict_entries(f.node, dvar) if dvar else {}
     written = keys | set(stores)
     ctx.decide(dvar is not None and written == KEYS, 'R-TABLE', 'D1', f, None, 'descriptor-keys',
                f'asarray writes a descriptor with exactly the keys {sorted(KEYS)}',
